@@ -64,7 +64,7 @@ META = dict(
     min_obligations=50,
 )
 
-REPO = '/repo'
+REPO = os.environ.get('VERIF_REPO', '/repo')
 
 
 # ---------------------------------------------------------------- bbox group
